@@ -283,7 +283,7 @@ func driveC16(c *h.Ctx) error {
 		} else {
 			c.Count("shutdown:drained")
 		}
-		rows = append(rows, fmt.Sprintf("(%s, %s)", srvScriptCoq(sc.Conns[0]), srvOutcomeCoq(r, 0)))
+		rows = append(rows, fmt.Sprintf("(%s, %s)", srvScriptCoq(sc.Conns[0], r.SdMs >= 2900), srvOutcomeCoq(r, 0)))
 		c.IndexCase("mism_conn", len(rows)-1, map[string]any{"scenario": sc, "conn": 0, "observed": r})
 	}
 	var sb strings.Builder
